@@ -79,6 +79,7 @@ type Exec struct {
 	paramRoot map[*Cell]paramRootInfo
 	inlineDepth int
 	caseIdx int // 0: no case split; k>0: k-th case; -1: exhaustiveness obligation only
+	ghostCells map[string]*Cell // contract-visible ghost variables (e.g. `iter` of a range loop without key)
 }
 
 func (ex *Exec) note(f string, a ...interface{}) {
@@ -161,7 +162,11 @@ func (ex *Exec) freshVal(st *State, k *Kind, hint string) Val {
 		st.assume(ex.rangeInv(k, t))
 		return SV{T: t}
 	case "obj":
-		return &ObjV{K: k, ID: Fresh(hint, SInt), Ghost: map[string]Val{}}
+		g := map[string]Val{}
+		for _, d := range ghostDecls[k.Name] {
+			g[d.Name] = ex.freshVal(st, ghostKind(d.Kind), hint+"."+d.Name)
+		}
+		return &ObjV{K: k, ID: Fresh(hint, SInt), Ghost: g}
 	case "slice":
 		if k.Fixed {
 			vs := make([]Val, k.N)
@@ -422,6 +427,11 @@ type abortPath struct{}
 
 func (ex *Exec) nameLookup(st *State, pos token.Pos) func(string) (Val, bool) {
 	return func(name string) (Val, bool) {
+		if c, ok := ex.ghostCells[name]; ok {
+			if v, ok := st.store[c]; ok {
+				return v, true
+			}
+		}
 		// innermost scope at pos
 		scope := ex.fi.Pkg.Types.Scope().Innermost(pos)
 		if scope == nil {
@@ -1658,6 +1668,9 @@ func (ex *Exec) havocLike(st *State, old Val, k *Kind, hint string) Val {
 		}
 		return x
 	case SV:
+		if k == nil {
+			return SV{T: Fresh(hint, x.T.Sort)}
+		}
 		if k.K == "var" && x.Lit != nil {
 			v := ex.freshVal(st, k, hint).(SV)
 			v.Lit = Fresh(hint+".lit", SBool)
@@ -1669,7 +1682,11 @@ func (ex *Exec) havocLike(st *State, old Val, k *Kind, hint string) Val {
 		}
 		return ex.freshVal(st, k, hint)
 	case *ObjV:
-		return &ObjV{K: x.K, ID: x.ID, Ghost: map[string]Val{}}
+		g := map[string]Val{}
+		for name, gv := range x.Ghost {
+			g[name] = ex.havocLike(st, gv, nil, hint+"."+name)
+		}
+		return &ObjV{K: x.K, ID: x.ID, Ghost: g}
 	}
 	return ex.freshVal(st, k, hint)
 }
@@ -1719,14 +1736,22 @@ func (ex *Exec) execRange1(st *State, n *ast.RangeStmt, ord int) []*State {
 		}
 		// desugar with a hidden counter bound to the key variable; the key must be a named variable for invariants
 		kid, ok := n.Key.(*ast.Ident)
+		var kc *Cell
+		kname := "iter"
 		if !ok || kid.Name == "_" {
-			panic(unsupported("range loop with invariant needs a named key variable at %s", ex.pos(n)))
+			// no key variable: the iteration counter is the ghost variable `iter`
+			if ex.ghostCells == nil {
+				ex.ghostCells = map[string]*Cell{}
+			}
+			kc = newCell("iter")
+			ex.ghostCells["iter"] = kc
+		} else {
+			kobj := ex.info.Defs[kid]
+			kc = ex.cellOf(kobj)
+			kname = kobj.Name()
 		}
-		kobj := ex.info.Defs[kid]
-		kc := ex.cellOf(kobj)
 		st.store[kc] = SV{T: Zero}
-		// build synthetic cond/post via closures: emulate with manual loop-invariant handling
-		return ex.execLoopInvRange(st, spec, ord, n, kc, kobj, length, elemAt, assign)
+		return ex.execLoopInvRange(st, spec, ord, n, kc, kname, length, elemAt, assign)
 	}
 	cnt := int(length.Int64())
 	work := []*State{st}
@@ -1759,7 +1784,7 @@ func (ex *Exec) execRange1(st *State, n *ast.RangeStmt, ord int) []*State {
 	return append(work, exits...)
 }
 
-func (ex *Exec) execLoopInvRange(st *State, spec *LoopSpec, ord int, n *ast.RangeStmt, kc *Cell, kobj types.Object, length *Term, elemAt func(*Term) Val, assign func(*State, ast.Expr, Val)) []*State {
+func (ex *Exec) execLoopInvRange(st *State, spec *LoopSpec, ord int, n *ast.RangeStmt, kc *Cell, kname string, length *Term, elemAt func(*Term) Val, assign func(*State, ast.Expr, Val)) []*State {
 	pos := n.Body.Lbrace + 1
 	evalInvs := func(s *State) []*Term {
 		ex.cur = s
@@ -1798,7 +1823,8 @@ func (ex *Exec) execLoopInvRange(st *State, spec *LoopSpec, ord int, n *ast.Rang
 		}
 		h.store[c] = ex.havocLike(h, st.store[c], kindOf(v.Type()), v.Name())
 	}
-	ki := Fresh(kobj.Name(), SInt)
+	ex.havocAliases(st, h, roots)
+	ki := Fresh(kname, SInt)
 	h.store[kc] = SV{T: ki}
 	h.assume(Ge(ki, Zero))
 	if h.ok != nil && ex.touchesAPI(n.Body) {
